@@ -14,7 +14,7 @@ import subprocess
 import vcheck
 from vcheck import coq_list
 
-HEADER = "From V.C11 Require Import Spec Model Run.\n"
+HEADER = "From V.C11 Require Import Spec Model FineModel Run.\n"
 
 RD = {"_GET": "RSg GGet", "_POST": "RSg GPost", "_COOKIE": "RSg GCookie", "_SERVER": "RSg GServer",
       # $_REQUEST["id"]: the harness parses the form (as a form POST does), so http.Request.Form — which $_POST
@@ -128,6 +128,35 @@ def gated_cases(rng, tier):
     return cases
 
 
+def fine_cases(rng, tier):
+    """interleavings with the verif yield hook enabled: a request also parks INSIDE the lazy fill of $_GET.
+    Programs over $_GET and private reads only (the fine model covers that one superglobal)."""
+    cases = [{"segs": [["_GET"], ["_GET", "local"]], "nreq": 2, "schedule": [0, 0, 1, 0], "gen": "crash-witness"},
+             {"segs": [["_GET"], ["_GET", "local"]], "nreq": 2, "schedule": [0, 0, 1, 1, 1, 0, 0, 1], "gen": "fill-into-foreign-object"}]
+    # every schedule of length <= 7 over two requests for one small program (prefix-closed: the engine finishes the rest)
+    prog = [["_GET", "local"], ["_GET"]]
+    for n in range(1, 8 if tier == "quick" else 10):
+        for sch in itertools.product([0, 1], repeat=n):
+            cases.append({"segs": prog, "nreq": 2, "schedule": list(sch), "gen": "all-prefixes"})
+    for _ in range(150 if tier == "quick" else 3000):
+        nseg = rng.randint(1, 3)
+        p = [[rng.choice(["_GET", "_GET", "local", "rquery", "obj"]) for _ in range(rng.randint(1, 3))] for _ in range(nseg)]
+        n = rng.randint(2, 3)
+        sch = [rng.randrange(n) for _ in range(rng.randint(3, 14))]
+        cases.append({"segs": p, "nreq": n, "schedule": sch, "gen": "seeded-fine"})
+    for c in cases:
+        c["yields"] = True
+        c["route"] = "handler"
+    return cases
+
+
+def coq_fprog(segs):
+    segs = [list(x) for x in segs]
+    body = [coq_list("FGet" if x == "_GET" else "FPriv" for x in sg) for sg in segs[:-1]]
+    body.append(coq_list(["FGet" if x == "_GET" else "FPriv" for x in segs[-1]] + ["FPriv", "FPriv"]))
+    return coq_list(body)
+
+
 def load_cases(rng, tier):
     cases = []
     progs = [[["_GET", "_SERVER", "local"], ["_GET", "rquery", "_REQUEST", "arr", "obj", "clo", "loop"]],
@@ -206,6 +235,59 @@ def main(ck):
             for k in sorted(keys):
                 ck.violation(k, dict(rep, clause="private_state_isolated" if k.startswith("private") else "superglobals_isolated (refuted: overlapping requests)"))
 
+    # ---- (i') finer than gates: yield point inside the $_GET fill
+    fcases = [] if ck.replay else fine_cases(rng, ck.tier)
+    if ck.replay and gcases and gcases[0].get("yields"):
+        fcases, gcases = gcases, []
+    fouts, rc, err = run([binary, "gated"], fcases) if fcases else ([], 0, "")
+    if len(fouts) != len(fcases):
+        ck.log("gated engine (yields) returned %d results for %d cases rc=%d\n%s" % (len(fouts), len(fcases), rc, err[-2000:]))
+        ck.broken.append("harness-run")
+        ck.finish(evaluations=len(fouts), distinct_nontrivial=0, rule="harness crashed")
+    fterms, fidx = [], []
+    for i, (c, o) in enumerate(zip(fcases, fouts)):
+        if "err" in o or any(r.get("panic") == "timeout" for r in o["resps"]):
+            ck.violation("impl-error:gated-yields", {"case": c, "impl_out": o})
+            continue
+        obs = []
+        for r in o["resps"]:
+            if r.get("panic"):
+                obs.append((True, []))
+            else:
+                obs.append((False, observed(c["segs"], r)))
+        c["_obs"] = obs
+        fterms.append("(%s, %d, %s, %s)" % (coq_fprog(c["segs"]), c["nreq"], coq_list(str(x) for x in o["order"]),
+                                             coq_list("(%s, %s)" % ("true" if cr else "false", coq_obs(v)) for cr, v in obs)))
+        fidx.append(i)
+    fbad = ck.eval_cases("fcases", HEADER, fterms, "check_fcase", shard=200) if fterms else {}
+    crashes = 0
+    for j, cls in sorted(fbad.items(), key=lambda kv: len(fcases[fidx[kv[0]]]["schedule"])):
+        c, o = fcases[fidx[j]], fouts[fidx[j]]
+        rep = {"case": {k: c[k] for k in ("segs", "nreq", "schedule", "route", "yields")}, "executed_order": o["order"], "impl_out": o["resps"], "clauses": cls}
+        if 1 in cls:
+            ck.broken.append("correspondence:C11.fine")
+            ck.violation("tie:gated-yields", dict(rep, clause="fine model vs implementation (tie)"))
+        if 5 in cls:
+            crashes += 1
+            for ri, (cr, _) in enumerate(c["_obs"]):
+                if cr:
+                    at = (o["resps"][ri].get("at") or ["?"])
+                    inside = any(f.startswith("node.(*GetVariable).GetValue") for f in at)
+                    shape = "exclusive-window" if contiguous(o["order"], ri) else "reset-during-fill"
+                    ck.violation("sg:_GET:panic:%s" % shape if inside else "panic:" + at[0],
+                                 dict(rep, clause="fine_no_crash_refuted (a request parked inside the lazy fill, another request's reset, nil dereference on resume)"))
+        if 2 in cls:
+            keys = set()
+            for ri, (cr, vals) in enumerate(c["_obs"]):
+                if cr:
+                    continue
+                for kind, name, shape in foreign_keys(c["segs"], ri + 1, vals, contiguous(o["order"], ri)):
+                    keys.add("private:%s" % name if kind == "private" else "sg:%s:%s" % (name, shape))
+            for k in sorted(keys):
+                ck.violation(k, dict(rep, clause="private_state_isolated" if k.startswith("private") else "superglobals_isolated (refuted: overlapping requests)"))
+    ck.cov["fine_cases"] = len(fcases)
+    ck.cov["fine_cases_with_crash"] = crashes
+
     # ---- (ii) parallel load under the race detector
     louts, rc, err = run([racebin, "load"], lcases, timeout=1500)
     lterms, lidx = [], []
@@ -276,4 +358,4 @@ def main(ck):
                    "(1-3 segments of 1-4 reads over 14 read kinds), 2-4 requests, shuffled schedules, both routes; load: 2/8/16/64 requests in "
                    "flight x 3 programs x 3 rounds under -race. evaluations = reads compared (incl. status and X-Id per response); non-trivial = "
                    "distinct scripted case in which at least two requests interleave",
-              traces=len(terms) + len(lterms))
+              traces=len(terms) + len(lterms) + len(fterms))
